@@ -351,8 +351,8 @@ pub fn defs() -> Vec<CheckDef> {
         CheckDef {
             id: "C02",
             level: "exploration",
-            runs_quick: 300_000,
-            runs_thorough: 6_000_000,
+            runs_quick: 800_000,
+            runs_thorough: 15_000_000,
             block: 256,
             gen: gen_c02,
             exec: crate::pipe::exec,
@@ -364,8 +364,8 @@ pub fn defs() -> Vec<CheckDef> {
         CheckDef {
             id: "C09",
             level: "fault_enumeration",
-            runs_quick: 800_000,
-            runs_thorough: 4_000_000,
+            runs_quick: 2_000_000,
+            runs_thorough: 40_000_000,
             block: 256,
             gen: gen_c09,
             exec: exec_any,
@@ -377,8 +377,8 @@ pub fn defs() -> Vec<CheckDef> {
         CheckDef {
             id: "C10",
             level: "exploration",
-            runs_quick: 800_000,
-            runs_thorough: 4_000_000,
+            runs_quick: 2_000_000,
+            runs_thorough: 40_000_000,
             block: 256,
             gen: gen_c10,
             exec: crate::pipe::exec,
@@ -390,8 +390,8 @@ pub fn defs() -> Vec<CheckDef> {
         CheckDef {
             id: "C11",
             level: "exploration",
-            runs_quick: 300_000,
-            runs_thorough: 2_000_000,
+            runs_quick: 600_000,
+            runs_thorough: 12_000_000,
             block: 128,
             gen: gen_c11,
             exec: crate::pipe::exec,
@@ -403,8 +403,8 @@ pub fn defs() -> Vec<CheckDef> {
         CheckDef {
             id: "C12",
             level: "exploration",
-            runs_quick: 300_000,
-            runs_thorough: 4_000_000,
+            runs_quick: 1_500_000,
+            runs_thorough: 30_000_000,
             block: 256,
             gen: gen_c12,
             exec: crate::pipe::exec,
